@@ -31,6 +31,38 @@ def audit(modules):
     return out, (p.stdout[-2000:] if p.returncode != 0 else "")
 
 
+FORBIDDEN = ["sorry", "admit", "native_decide", "bv_decide", "implemented_by", "unsafe ", "maxHeartbeats 0"]
+
+
+def hygiene():
+    """textual scan of the Lean sources: nothing that would weaken what `theorem` means (comments ignored)"""
+    import re
+    hits = []
+    for root, _, files in os.walk(core.LEAN):
+        if ".lake" in root:
+            continue
+        for fn in files:
+            if not fn.endswith(".lean"):
+                continue
+            path = os.path.join(root, fn)
+            txt = open(path, encoding="utf-8").read()
+            txt = re.sub(r"/-.*?-/", "", txt, flags=re.S)
+            for ln, line in enumerate(txt.split("\n"), 1):
+                code = line.split("--")[0]
+                if re.match(r"\s*axiom\s", code):
+                    hits.append("%s:%d: axiom" % (path, ln))
+                for w in FORBIDDEN:
+                    if w in code:
+                        hits.append("%s: %s" % (os.path.relpath(path, core.LEAN), w.strip()))
+    return hits
+
+
+def leanchecker(mods):
+    """independent re-check of the compiled property modules (thorough tier)"""
+    p = core.sh(["lake", "env", "leanchecker"] + mods, cwd=core.LEAN, timeout=7200, check=False)
+    return p.returncode == 0, p.stdout[-1500:]
+
+
 def proof_obligations(spec):
     """build the property's modules, audit; returns dict with obligations/discharged/broken"""
     mods = spec.lean_modules
@@ -55,6 +87,10 @@ def proof_obligations(spec):
             continue
         res["discharged"] += 1
     res["obligations"] = max(1, len(spec.theorems))
+    bad = hygiene()
+    res["hygiene_hits"] = bad
+    if bad:
+        res["broken"].append("forbidden construct in the Lean sources: " + "; ".join(bad[:5]))
     return res
 
 
@@ -92,6 +128,11 @@ def main():
             print("BUILD-ERROR: the names extractor failed on /repo: %s" % str(e)[-1500:])
             return 2
     po = proof_obligations(spec)
+    if tier == "thorough" and not args.replay and not po["broken"]:
+        ok, log = leanchecker(spec.lean_modules)
+        po["leanchecker"] = "ok" if ok else log
+        if not ok:
+            po["broken"].append("leanchecker rejects the compiled module: " + log[-500:])
     rng = core.Rng(seed)
     if args.replay:
         outcome = spec.replay(rp)
@@ -113,6 +154,8 @@ def main():
             "trusted_base": spec.trusted_base,
             "theorems": po["axioms"],
             "broken_obligations": po["broken"],
+            "source_hygiene_hits": po.get("hygiene_hits", []),
+            "leanchecker": po.get("leanchecker", "not run in this tier"),
             "evaluations": outcome.evaluations,
             "distinct_nontrivial": outcome.distinct,
             "rule": outcome.rule,
